@@ -347,10 +347,14 @@ open Okane Okane.Literal
 /-- `'\n' ∉ s` as a predicate that `simp` can push through concatenations -/
 def nlf (s : List Char) : Prop := '\n' ∉ s
 
+instance (s : List Char) : Decidable (nlf s) := inferInstanceAs (Decidable ('\n' ∉ s))
+
 @[simp] theorem nlf_nil : nlf [] := by simp [nlf]
 @[simp] theorem nlf_cons (c : Char) (s : List Char) : nlf (c :: s) ↔ c ≠ '\n' ∧ nlf s := by
   simp [nlf, eq_comm]
 @[simp] theorem nlf_append (a b : List Char) : nlf (a ++ b) ↔ nlf a ∧ nlf b := by
+  simp [nlf]
+@[simp] theorem nlf_reverse (s : List Char) : nlf s.reverse ↔ nlf s := by
   simp [nlf]
 @[simp] theorem nlf_spaces (n : Nat) : nlf (spaces n) := by
   simp [nlf, spaces, List.mem_replicate]
@@ -383,6 +387,14 @@ theorem nlf_fmtDate (d : Date) : nlf (fmtDate d) := by
   · split <;> simp [h4]
 
 theorem rustLinesAux_nlf (s : List Char) : ∀ cur, nlf cur → ∀ l ∈ rustLinesAux s cur, nlf l := by
+  have key : ∀ cur : List Char, nlf cur →
+      nlf (match cur with
+        | '\r' :: cur' => cur'.reverse
+        | _ => cur.reverse) := by
+    intro cur h
+    split
+    · simp at h; simp [h.2]
+    · simp [h]
   induction s with
   | nil =>
     intro cur hcur l hl
@@ -391,21 +403,17 @@ theorem rustLinesAux_nlf (s : List Char) : ∀ cur, nlf cur → ∀ l ∈ rustLi
     | cons c cur =>
       simp only [rustLinesAux, List.mem_singleton] at hl
       subst hl
-      simpa [nlf] using hcur
+      simpa using hcur
   | cons c cs ih =>
     intro cur hcur l hl
     rw [rustLinesAux] at hl
-    split at hl
-    · rcases List.mem_cons.mp hl with h | h
-      · subst h
-        split
-        · rename_i cur' 
-          have : nlf cur' := by simp at hcur; exact hcur.2
-          simpa [nlf] using this
-        · simpa [nlf] using hcur
+    by_cases hc : c = '\n'
+    · rw [if_pos hc] at hl
+      rcases List.mem_cons.mp hl with h | h
+      · rw [h]; exact key cur hcur
       · exact ih [] nlf_nil l h
-    · rename_i hne
-      exact ih (c :: cur) (by simp [hcur, hne]) l hl
+    · rw [if_neg hc] at hl
+      exact ih (c :: cur) (by simp [hcur, hc]) l hl
 
 theorem lineWrap_nlf (pre content : List Char) (hpre : nlf pre) : ∀ l ∈ lineWrap pre content, nlf l := by
   intro l hl
@@ -509,45 +517,42 @@ theorem metaLine_nlf (n : Nat) (m : Metadata) (h : metadataNoLF m) : nlf (metaLi
 theorem clearMark_nlf (c : ClearState) : nlf (clearMark c) := by
   cases c <;> simp [clearMark]
 
+theorem amountPart_nlf (cx : Ctx) (hn : NumNoLF cx) (p : Posting) (h : optNoLF postingAmountNoLF p.amount) :
+    nlf (amountPart cx p) := by
+  unfold amountPart
+  cases ha : p.amount with
+  | none => simp
+  | some a =>
+    rw [ha] at h
+    obtain ⟨h1, h2, h3⟩ := h
+    simp [fmtVExpr_nlf cx hn a.amount h1, printLot_nlf cx hn a.lot h3, printCost_nlf cx hn a.cost h2]
+
+theorem balancePart_nlf (cx : Ctx) (hn : NumNoLF cx) (p : Posting) (h : optNoLF vexprNoLF p.balance) :
+    nlf (balancePart cx p) := by
+  unfold balancePart
+  cases hb : p.balance with
+  | none => simp
+  | some b =>
+    rw [hb] at h
+    simp [padLeft, printVExpr_nlf cx hn b h]
+
 theorem postingHead_nlf (cx : Ctx) (hn : NumNoLF cx) (p : Posting) (h : postingNoLF p) : nlf (postingHead cx p) := by
   obtain ⟨hacc, hamt, hbal, _⟩ := h
-  unfold postingHead amountPart balancePart
   have hacc' : nlf p.account.toList := hacc
-  have h1 : nlf (match p.amount with
-      | none => []
-      | some a =>
-        spaces (getColumn Params.amountColumn (accountWidth cx p + (fmtVExpr cx a.amount).2.absolute) Params.amountPadding)
-          ++ (fmtVExpr cx a.amount).1 ++ printLot cx a.lot ++ printCost cx a.cost) := by
-    cases ha : p.amount with
-    | none => simp
-    | some a =>
-      rw [ha] at hamt
-      obtain ⟨h1, h2, h3⟩ := hamt
-      simp [fmtVExpr_nlf cx hn a.amount h1, printLot_nlf cx hn a.lot h3, printCost_nlf cx hn a.cost h2]
-  have h2 : nlf (match p.balance with
-      | none => []
-      | some b => padLeft (balancePadding cx p b) [' ', '='] ++ ' ' :: printVExpr cx b) := by
-    cases hb : p.balance with
-    | none => simp
-    | some b =>
-      rw [hb] at hbal
-      simp [padLeft, printVExpr_nlf cx hn b hbal]
-  simp [clearMark_nlf, hacc', h1, h2]
+  unfold postingHead
+  simp [clearMark_nlf, hacc', amountPart_nlf cx hn p hamt, balancePart_nlf cx hn p hbal]
 
 theorem txnHeader_nlf (t : Transaction) (h : txnNoLF t) : nlf (txnHeader t) := by
   obtain ⟨hp, hc, _, _⟩ := h
   unfold txnHeader
   have hp' : nlf t.payee.toList := hp
-  have h1 : nlf (match t.effectiveDate with | some e => '=' :: fmtDate e | none => []) := by
-    cases t.effectiveDate <;> simp [nlf_fmtDate]
-  have h2 : nlf (match t.code with | some c => '(' :: c.toList ++ [')', ' '] | none => []) := by
-    cases hcode : t.code with
-    | none => simp
-    | some c =>
-      rw [hcode] at hc
-      have : nlf c.toList := hc
-      simp [this]
-  simp [nlf_fmtDate, h1, h2, hp', clearMark_nlf]
+  cases hcode : t.code with
+  | none =>
+    cases t.effectiveDate <;> simp [nlf_fmtDate, hp', clearMark_nlf]
+  | some c =>
+    rw [hcode] at hc
+    have : nlf c.toList := hc
+    cases t.effectiveDate <;> simp [nlf_fmtDate, hp', clearMark_nlf, this]
 
 /-- when no single-line field of the entry holds a line feed, no printed line body does: the line bodies are the lines
 of the printed text -/
